@@ -21,6 +21,7 @@ IsOk(d) == d.k = "v"
 After(log, dev, d) == [d EXCEPT !.log = log \o @, !.dev = @ \/ dev]
 \* lift a value-level result (R/E) that happens after `log`
 Lift(r, log, dev) == IF r.k = "v" THEN OkD(r.v, log, dev \/ r.dev) ELSE ErD(r.cs, "", log, dev \/ r.dev)
+LiftN(r, log, dev, n) == IF r.k = "v" THEN OkD(r.v, log, dev \/ r.dev) ELSE ErD(r.cs, n, log, dev \/ r.dev)
 
 Truth(v) == Dev_Truthiness(v)
 NB(v) == ~IsBool(v)          \* "not a bool": outside the typed fragment
@@ -42,16 +43,18 @@ DenArgs(call, this, sig, si, ai, got, env, F, acc) ==
   IF si > Len(sig) THEN [ok |-> TRUE, got |-> got, ai |-> ai, log |-> acc.log, dev |-> acc.dev]
   ELSE LET p == sig[si]
            fail == [ok |-> FALSE, err |-> ErD({"type"}, "", acc.log, acc.dev)]
+           thisFail == [ok |-> FALSE, err |-> ErD({"type"}, "", acc.log, acc.dev \/ \E i \in 1..Len(call.args) : ~EV!IsPureArg(call.args[i]) /\ call.args[i].k # "id")]
            takeArg ==
              IF ai > Len(call.args) THEN fail
              ELSE LET d == Den(call.args[ai], env, F) IN
                   IF ~IsOk(d) THEN [ok |-> FALSE, err |-> After(acc.log, acc.dev, d)]
-                  ELSE IF ~EV!Conv(d.v, p.ty) THEN [ok |-> FALSE, err |-> ErD({"type"}, "", acc.log \o d.log, acc.dev \/ d.dev)]
+                  ELSE IF ~EV!Conv(d.v, p.ty) THEN [ok |-> FALSE, err |-> ErD({"type"}, "", acc.log \o d.log,
+                                                                           acc.dev \/ d.dev \/ \E i \in (ai + 1)..Len(call.args) : ~EV!IsPureArg(call.args[i]) /\ call.args[i].k # "id")]
                   ELSE DenArgs(call, this, sig, si + 1, ai + 1, Append(got, d.v), env, F,
                                [log |-> acc.log \o d.log, dev |-> acc.dev \/ d.dev])
        IN
        CASE p.x = "this" -> IF this # EV!NoThis
-                            THEN (IF EV!Conv(this, p.ty) THEN DenArgs(call, this, sig, si + 1, ai, Append(got, this), env, F, acc) ELSE fail)
+                            THEN (IF EV!Conv(this, p.ty) THEN DenArgs(call, this, sig, si + 1, ai, Append(got, this), env, F, acc) ELSE thisFail)
                             ELSE takeArg
          [] p.x = "arg"  -> takeArg
          [] p.x = "args" -> LET s == DenSeq(call.args, 1, env, F, << >>, acc) IN
@@ -108,7 +111,7 @@ Den(e, env, F) ==
                       IF l.found THEN OkD(l.v, << >>, FALSE) ELSE ErD({"undeclared"}, e.name, << >>, FALSE)
     [] e.k = "sel" -> LET d == Den(e.e, env, F) IN
                       IF ~IsOk(d) THEN d
-                      ELSE Lift(IF e.test THEN HasOp(d.v, e.fcp) ELSE SelectOp(d.v, e.fcp, e.field \in DOMAIN F), d.log, d.dev)
+                      ELSE LiftN(IF e.test THEN HasOp(d.v, e.fcp) ELSE SelectOp(d.v, e.fcp, e.field \in DOMAIN F), d.log, d.dev, e.field)
     [] e.k = "list" -> LET s == DenSeq(e.e, 1, env, F, << >>, [log |-> << >>, dev |-> FALSE]) IN
                        IF s.ok THEN OkD(VList(s.vals), s.log, s.dev) ELSE s.err
     [] e.k = "map" ->
@@ -180,6 +183,6 @@ Den(e, env, F) ==
                    IF ~b.ok THEN b.err
                    ELSE LET extra == (b.ai - 1) < Len(e.args) /\ ~(\E i \in 1..Len(fd.sig) : fd.sig[i].x = "args")
                         IN  IF fd.kind = "host"
-                            THEN Lift(EV!HostResult(fd.beh, b.got), Append(b.log, [f |-> e.fn, a |-> b.got]), b.dev \/ extra)
-                            ELSE Lift(BF!Builtin(e.fn, b.got), b.log, b.dev \/ extra)
+                            THEN LiftN(EV!HostResult(fd.beh, b.got), Append(b.log, [f |-> e.fn, a |-> b.got]), b.dev \/ extra, e.fn)
+                            ELSE LiftN(BF!Builtin(e.fn, b.got), b.log, b.dev \/ extra, e.fn)
 =============================================================================
